@@ -200,6 +200,13 @@ def write_evidence(pid, tier, seed, ctx, mod, wall, new, known_hit, audit=None, 
         f.write("\n")
 
 
+import signal as _signal
+try:
+    _signal.signal(_signal.SIGPIPE, _signal.SIG_DFL)      # `./check C01 | head` ends quietly
+except (AttributeError, ValueError):
+    pass
+
+
 def main(argv=None):
     argv = list(sys.argv[1:] if argv is None else argv)
     tier = os.environ.get("VERIF_TIER") or "quick"
